@@ -622,7 +622,7 @@ func checkD2(c *Ctx, pr *prioRoles) {
 								for _, e := range InstrDomEdges(in) {
 									iff := e.From.Instrs[len(e.From.Instrs)-1].(*ssa.If)
 									base, neg := condOf(iff.Cond)
-									bs := p.Sym(base)
+									bs := p.SymX(base) // (the lookup may sit in an expression helper: isInputExists(p))
 									if bs.Op == "extract" && bs.Name == "1" && bs.Args[0].Op == "index" {
 										if _, path, okp := bs.Args[0].Args[0].FieldPath(); okp && path[len(path)-1] == "inputs" && bs.Args[0].Args[1].String() == p.Sym(el).String() {
 											if (e.Succ == 0) == neg {
